@@ -11,5 +11,5 @@ Proof.
   unfold complement_std_range, pairs_Z.
   remember (Z.of_nat s) as zs eqn:Es. remember (Z.of_nat e) as ze eqn:Ee. remember (Z.of_nat n) as zn eqn:En.
   destruct zs as [|p|p]; [assert (s = 0%nat) by lia; subst s | destruct s as [|s]; [lia|] | lia];
-    case_bools; cbn [map fst snd]; subst; try (exfalso; lia); rs_finish.
+    case_bools; cbn [negb app map fst snd]; subst; try (exfalso; lia); rs_finish.
 Qed.
